@@ -230,7 +230,7 @@ def run(chk):
     def r4():
         key = None
         for k in P.bodies:
-            if k.startswith("emit_otlp::client::http::HttpConnection::send::{closure#0}::{closure#0}"):
+            if k.startswith("emit_otlp::client::http::HttpConnection::send::{closure#0}"):
                 if P.bodies[k].calls_to(path_re=r"HttpConnection::unpoison$"):
                     key = k
         if key is None:
